@@ -222,6 +222,9 @@ def judge(cfg, m: M.ArgModel, vals: Values, fn, root_names, acc, desc, witness):
                     witness())
 
 
+EXTRA_NAMES = ['extra', 'zeta', 'alpha']
+
+
 def apply_binding(rng, fn, setpos, setko, va_len, extra, mode, vals):
   """Creates Config + model with the given set-pattern. Returns (cfg, model, log) or None."""
   m = M.ArgModel(fn)
@@ -247,7 +250,9 @@ def apply_binding(rng, fn, setpos, setko, va_len, extra, mode, vals):
     for nm in setko:
       kwargs[nm] = vals.new()
     if extra:
-      kwargs['extra'] = vals.new()
+      # several **kwargs names, NOT in alphabetical order: their order is what the callable sees
+      for nm in EXTRA_NAMES[:1 + (next(vals.cnt) % 3)]:
+        kwargs[nm] = vals.new()
     try:
       cfg = fdl.Config(fn, *args, **kwargs)
     except TypeError:
@@ -281,10 +286,11 @@ def apply_binding(rng, fn, setpos, setko, va_len, extra, mode, vals):
     m.setattr(nm, v)
     log.append(('setattr', nm))
   if extra:
-    v = vals.new()
-    cfg.extra = v
-    m.setattr('extra', v)
-    log.append(('setattr', 'extra'))
+    for nm in EXTRA_NAMES[:1 + (next(vals.cnt) % 3)]:
+      v = vals.new()
+      setattr(cfg, nm, v)
+      m.setattr(nm, v)
+      log.append(('setattr', nm))
   return cfg, m, log
 
 
